@@ -1053,9 +1053,13 @@ impl ElementRaw {
             // compare the new element to the existing elements
             for (idx, content_item) in self.content.iter().enumerate() {
                 if let ElementContent::Element(subelement) = content_item {
-                    let (_, existing_element_indices) = elemtype
+                    // an existing sub element might not be valid in the current version, if the file was loaded in non-strict mode
+                    let Some((_, existing_element_indices)) = elemtype
                         .find_sub_element(subelement.element_name(), version as u32)
-                        .unwrap();
+                        .or_else(|| elemtype.find_sub_element(subelement.element_name(), u32::MAX))
+                    else {
+                        continue;
+                    };
                     let group_type = elemtype.find_common_group(&new_element_indices, &existing_element_indices);
                     match group_type.content_mode() {
                         ContentMode::Sequence => {
